@@ -69,6 +69,8 @@ struct Inner {
     stalls: Vec<StallRec>,
     site_hits: Vec<u64>,
     mid_op_parks: u64,
+    quantum: u32,
+    rr_last: usize,
 }
 
 static SCHED: Mutex<Option<Inner>> = Mutex::new(None);
@@ -83,6 +85,12 @@ pub fn set_step_hook(f: Option<fn(usize, u32)>) {
 }
 
 pub fn init(n: usize, dirs: Vec<Directive>) {
+    init_rr(n, dirs, 0)
+}
+
+/// `quantum` > 0: once the directives are used up the remaining workers take turns of `quantum`
+/// ops each (round robin) instead of running to completion one after the other.
+pub fn init_rr(n: usize, dirs: Vec<Directive>, quantum: u32) {
     let mut g = SCHED.lock().unwrap();
     *g = Some(Inner {
         n,
@@ -103,6 +111,8 @@ pub fn init(n: usize, dirs: Vec<Directive>) {
         stalls: Vec::new(),
         site_hits: vec![0; 64],
         mid_op_parks: 0,
+        quantum,
+        rr_last: 0,
     });
     circ::verif::set_yield_hook(Some(yield_hook));
 }
@@ -135,6 +145,19 @@ impl Inner {
                     _ => 0,
                 };
                 return t;
+            }
+            if self.quantum > 0 {
+                // directives exhausted: round robin, `quantum` ops per turn
+                for k in 1..=self.n {
+                    let t = (self.rr_last + k) % self.n;
+                    if !self.finished[t] {
+                        self.rr_last = t;
+                        self.cur_until = Some(Until::Ops(self.quantum));
+                        self.rem = self.quantum;
+                        return t;
+                    }
+                }
+                return self.n;
             }
             // directives exhausted: remaining workers run to completion in index order
             self.cur_until = Some(Until::End);
